@@ -507,6 +507,15 @@ class Interp(object):
             r = x86.dispatch(n, args)
             if r is not NotImplemented:
                 return r
+        if n == "@strlen":
+            p_, k = args[0], 0
+            while True:
+                v = self.load_bytes(Ptr(p_.obj, self._addoff(p_.off, k, 1)), 1, where)
+                if isinstance(v, T.Term):
+                    raise Unsupported("strlen over symbolic bytes at " + where)
+                if v == 0:
+                    return k
+                k += 1
         if n in ("@sodium_misuse", "@abort", "@__assert_fail"):
             raise Violation("abort", where, "%s reached" % n)
         if n.startswith("@_sodium_dummy_symbol"):
